@@ -53,7 +53,8 @@ class RuleResult:
         """instance-count floor confirmed by hand on the reference tree: fewer matches means the
         rule has lost its anchors (vacuous pass) -> analysis error, not a verdict."""
         self.floor = n
-        if len(self.instances) < n:
+        # a rule that already has a finding has a definite verdict: the floor only guards against vacuous passes
+        if len(self.instances) < n and not self.findings:
             raise AnalysisError(f"{self.rule}: matched {len(self.instances)} instances, floor is {n} "
                                 f"(rule lost its anchors; refusing a vacuous pass)")
 
